@@ -59,7 +59,7 @@ def main(ctx):
     covered = set(c["tag"] for c in cases if not c["tag"].startswith("trivial"))
     ctx.extra["operators_with_successful_case"] = len(covered)
     ctx.extra["operators_without_successful_case"] = sorted(k for k in built if k not in covered)
-    ctx.correspond("layout-independence", GROUP, REQ, cases, classify=_c13.attention_classifier(ctx, GROUP, REQ, cases), agree="prop_ok", prop_ok="prop_ok", show="show", shard=120,
+    ctx.correspond("layout-independence", GROUP, REQ, cases, classify=_c13.attention_classifier(ctx, GROUP, REQ, cases), agree="layout_ok", prop_ok="layout_ok", show="show", shard=120,
                    fn_name="Operator::run on contiguous vs permuted/stepped/offset/broadcast representations (differential)")
     if failed and not ctx.violations:
         ctx.proof_broken(failed, "all correspondence cases of this run")
